@@ -185,6 +185,51 @@ class G:
     def __post_init__(self):
         self.p
 ''', sources={"a": "int", "b": "int"}, derived={"p": (["a"], lambda s: s["a"] * 2, "cached")}),
+    "post_init_mutates": dict(src='''
+@spec_class
+class G:
+    a: int = 1
+    b: int = 10
+    @spec_property(cache=True, invalidated_by=["a"])
+    def p(self):
+        hit("p"); return self.a * 2
+    def __post_init__(self):
+        self.p                  # fills the cache ...
+        self.a = self.a + 4     # ... and then mutates the dependency
+''', sources={"a": "int", "b": "int"}, derived={"p": (["a"], lambda s: s["a"] * 2, "cached")}, init_src={"a": 5}),
+    "wildcard_post_init": dict(src='''
+@spec_class
+class G:
+    a: int = 1
+    b: int = 10
+    d: int = Attr(default=0, invalidated_by=["a"])
+    @spec_property(cache=True, invalidated_by=["*"])
+    def p(self):
+        hit("p"); return self.a * 2 + self.b
+    def __post_init__(self):
+        self.p
+        self.b = 11
+''', sources={"a": "int", "b": "int"}, derived={"p": (["a", "b", "d"], lambda s: s["a"] * 2 + s["b"], "cached"), "d": (["a"], None, "attr")},
+        init_src={"b": 11}),
+    "failing_setter": dict(src='''
+@spec_class
+class G:
+    a: int
+    b: int = 10
+    d: int = Attr(default=0, invalidated_by=["a"])
+    _a = 1
+    @property
+    def a(self):
+        return self._a
+    @a.setter
+    def a(self, v):
+        if v < 0:
+            raise ValueError("negative")
+        self._a = v
+    @spec_property(cache=True, invalidated_by=["a"])
+    def p(self):
+        hit("p"); return self.a * 2
+''', sources={"a": "prop_source", "b": "int"}, derived={"p": (["a"], lambda s: s["a"] * 2, "cached"), "d": (["a"], None, "attr")}),
     "nonoverridable_cached": dict(src='''
 @spec_class
 class G:
@@ -254,6 +299,10 @@ def ops_for(graph):
             ops += [["set", s, [2, 3]], ["with", s, [4], True], ["with", s, [5], False], ["item", s, 7, True], ["item", s, 8, False],
                     ["reset_attr", s, True], ["del", s], ["set_bad", s, "bad"]]
             continue
+        if kind == "prop_source":
+            ops += [["set", s, 1], ["set", s, 2], ["set_fail", s, -1], ["with", s, 3, True], ["with", s, 4, False],
+                    ["with_fail", s, -2, True], ["update_fail", s, -3, True], ["set_bad", s, "bad"]]
+            continue
         for v in (1, 2):
             ops.append(["set", s, v])
         ops.append(["del", s])
@@ -271,6 +320,7 @@ class Ref:
     def __init__(self, graph):
         self.g = GRAPHS[graph]
         self.src = {k: copy.deepcopy(SRC_DEFAULT[k]) for k, kind in self.g["sources"].items() if kind != "int_nodefault"}
+        self.src.update(self.g.get("init_src", {}))
         self.override = {}
         self.attr_val = {d: 0 for d, (_, _, k) in self.g["derived"].items() if k == "attr"}
 
@@ -364,6 +414,18 @@ def apply(ns, obj, ref, op):
             except (TypeError, ValueError):
                 return obj, r2, ("raised", "TypeError"), "failed_mutation"
             return obj, r2, ("value", None), "should_have_raised"
+        elif name in ("set_fail", "with_fail", "update_fail"):
+            # a mutation that fails INSIDE the attribute write (validating property setter)
+            try:
+                if name == "set_fail":
+                    setattr(obj, s, op[2])
+                elif name == "with_fail":
+                    getattr(obj, f"with_{s}")(op[2], _inplace=op[3])
+                else:
+                    obj.update(**{s: op[2]}, _inplace=op[3])
+            except ValueError:
+                return obj, r2, ("raised", "ValueError"), "failed_mutation"
+            return obj, r2, ("value", None), "should_have_raised"
         elif name == "del":
             try:
                 delattr(obj, s)
@@ -407,8 +469,8 @@ def apply(ns, obj, ref, op):
             carrier = obj.reset(_inplace=op[1])
             # reset deletes every MANAGED attribute that currently has something to delete
             for k, kind in g["sources"].items():
-                if kind == "unmanaged":
-                    continue
+                if kind in ("unmanaged", "prop_source"):
+                    continue  # (a property-backed attribute without deleter cannot be deleted: reset leaves it)
                 r2.del_src(k)
             for d in r2.attr_val:
                 r2.attr_val[d] = 0
